@@ -500,8 +500,59 @@ theorem mainLoop_open {t : Tokenizer} {c : Nat} (h60 : t.buf[t.rawE]? = some 60)
     unfold isOpener at hop; simp [hop]
   simp [this]
 
-/-- the `'main` loop runs over bytes other than `<` and stops at `<` + opener -/
-theorem mainLoop_text : ∀ (tx : Bytes) (t : Tokenizer) (c : Nat), (∀ b ∈ tx, b ≠ 60) →
+/-- a text as the `'main` loop delimits it: every `<` is followed, INSIDE the text, by a byte that opens no tag, comment or
+declaration (not a letter, `/`, `!`, `?`) — so `a < b`, `1<2`, `<<` + non-opener are text; the last byte is not `<` -/
+def textOKB : Bytes → Bool
+  | [] => true
+  | [b] => b != 60
+  | b :: c :: r => (b != 60 || !Rio.Filter.isOpener c) && textOKB (c :: r)
+
+theorem textOKB_of_no60 : ∀ (tx : Bytes), (∀ b ∈ tx, b ≠ 60) → textOKB tx = true
+  | [], _ => rfl
+  | [b], h => by simp [textOKB, h b (by simp)]
+  | b :: c :: r, h => by
+    have ih := textOKB_of_no60 (c :: r) (fun x hx => h x (List.mem_cons_of_mem _ hx))
+    simp [textOKB, h b (by simp), ih]
+
+theorem textOKB_tail {b : Nat} {tx : Bytes} (h : textOKB (b :: tx) = true) : textOKB tx = true := by
+  cases tx with
+  | nil => rfl
+  | cons c r =>
+    simp only [textOKB, Bool.and_eq_true] at h
+    exact h.2
+
+/-- `<` followed by a byte that opens nothing: the loop steps back onto that byte and goes on -/
+theorem mainLoop_lt_skip {t : Tokenizer} {c : Nat} (h60 : t.buf[t.rawE]? = some 60)
+    (hc : t.buf[t.rawE + 1]? = some c) (hop : Rio.Filter.isOpener c = false) (herr : t.err = false) :
+    mainLoop t = mainLoop { t with rawE := t.rawE + 1 } := by
+  cases t
+  simp only at herr h60 hc
+  subst herr
+  rw [mainLoop, readByte_at h60]
+  simp only [Bool.false_eq_true, dite_false, bne_self_eq_false, if_false]
+  rw [readByte_at hc]
+  have : (!(isAlpha c || c == 47 || c == 33 || c == 63)) = true := by
+    unfold Rio.Filter.isOpener at hop; simp [hop]
+  simp [this, unread]
+
+/-- one step of the loop inside a text -/
+theorem mainLoop_text_step {t : Tokenizer} {b : Nat} {tx : Bytes} (hok : textOKB (b :: tx) = true)
+    (hbuf : ∀ i, i < (b :: tx).length → t.buf[t.rawE + i]? = (b :: tx)[i]?) (herr : t.err = false) :
+    mainLoop t = mainLoop { t with rawE := t.rawE + 1 } := by
+  have hb : t.buf[t.rawE]? = some b := by simpa using hbuf 0 (by simp)
+  by_cases hne : b = 60
+  · subst hne
+    cases tx with
+    | nil => simp [textOKB] at hok
+    | cons c r =>
+      have hc : t.buf[t.rawE + 1]? = some c := by simpa using hbuf 1 (by simp)
+      simp only [textOKB, Bool.and_eq_true, Bool.or_eq_true, bne_self_eq_false, Bool.false_eq_true, false_or,
+        Bool.not_eq_true'] at hok
+      exact mainLoop_lt_skip hb hc hok.1 herr
+  · exact mainLoop_skip hb hne herr
+
+/-- the `'main` loop runs over a text and stops at `<` + opener -/
+theorem mainLoop_text : ∀ (tx : Bytes) (t : Tokenizer) (c : Nat), textOKB tx = true →
     (∀ i, i < tx.length → t.buf[t.rawE + i]? = tx[i]?) → t.buf[t.rawE + tx.length]? = some 60 →
     t.buf[t.rawE + tx.length + 1]? = some c → isOpener c = true → t.err = false →
     mainLoop t = dispatchTag { t with rawE := t.rawE + tx.length + 2 } c
@@ -509,8 +560,7 @@ theorem mainLoop_text : ∀ (tx : Bytes) (t : Tokenizer) (c : Nat), (∀ b ∈ t
     simp only [List.length_nil, Nat.add_zero] at h60 hc ⊢
     exact mainLoop_open h60 hc hop herr
   | b :: tx, t, c, hne, hbuf, h60, hc, hop, herr => by
-    have hb : t.buf[t.rawE]? = some b := by simpa using hbuf 0 (by simp)
-    rw [mainLoop_skip hb (hne b (by simp)) herr]
+    rw [mainLoop_text_step hne hbuf herr]
     have h1 : ∀ i, i < tx.length → t.buf[t.rawE + 1 + i]? = tx[i]? := by
       intro i hi
       have := hbuf (i + 1) (by simp; omega)
@@ -520,7 +570,7 @@ theorem mainLoop_text : ∀ (tx : Bytes) (t : Tokenizer) (c : Nat), (∀ b ∈ t
       simp only [List.length_cons] at h60; rw [← h60]; congr 1; omega
     have h3 : t.buf[t.rawE + 1 + tx.length + 1]? = some c := by
       simp only [List.length_cons] at hc; rw [← hc]; congr 1; omega
-    have := mainLoop_text tx { t with rawE := t.rawE + 1 } c (fun x hx => hne x (List.mem_cons_of_mem _ hx))
+    have := mainLoop_text tx { t with rawE := t.rawE + 1 } c (textOKB_tail hne)
       h1 h2 h3 hop herr
     rw [this]
     congr 2
@@ -531,7 +581,7 @@ theorem toArray_getElem?_append_left (a b : Bytes) (i : Nat) (h : i < a.length) 
   simp [List.getElem?_append_left h]
 
 /-- the first token of `tx ++ '<' :: c :: rest` (`tx` non-empty, free of `<`; `c` an opener) is the text `tx` -/
-theorem next_text (tx : Bytes) (c : Nat) (rest : Bytes) (hne : tx ≠ []) (h60 : ∀ b ∈ tx, b ≠ 60)
+theorem next_text (tx : Bytes) (c : Nat) (rest : Bytes) (hne : tx ≠ []) (h60 : textOKB tx = true)
     (hop : isOpener c = true) :
     next (Tokenizer.new (tx ++ 60 :: c :: rest).toArray) =
       { Tokenizer.new (tx ++ 60 :: c :: rest).toArray with
@@ -551,7 +601,7 @@ theorem next_text (tx : Bytes) (c : Nat) (rest : Bytes) (hne : tx ≠ []) (h60 :
 
 /-- **a text followed by a tag**: tokens(tx ++ y) = text(tx) :: tokens(y) when `y` starts with `<` + opener -/
 theorem htmlTokenize?_text {tx y : Bytes} {c : Nat} {rest : Bytes} {ts' : List Tok} {r : Bytes}
-    (hne : tx ≠ []) (h60 : ∀ b ∈ tx, b ≠ 60) (hy0 : y = 60 :: c :: rest) (hop : isOpener c = true)
+    (hne : tx ≠ []) (h60 : textOKB tx = true) (hy0 : y = 60 :: c :: rest) (hop : isOpener c = true)
     (hy : htmlTokenize? y = some (ts', r)) :
     htmlTokenize? (tx ++ y) = some (⟨.text, tx, []⟩ :: ts', r) := by
   subst hy0
@@ -815,7 +865,7 @@ theorem streamTo_append {x y : Bytes} {ts ts' : List Tok} {r : Bytes} (hc : Clos
 
 /-- **a text followed by a tag**, stream tokenizer: the text is not cut -/
 theorem streamTo_text {tx y : Bytes} {c : Nat} {rest : Bytes} {ts' : List Tok} {r : Bytes}
-    (hne : tx ≠ []) (h60 : ∀ b ∈ tx, b ≠ 60) (hy0 : y = 60 :: c :: rest) (hop : isOpener c = true)
+    (hne : tx ≠ []) (h60 : textOKB tx = true) (hy0 : y = 60 :: c :: rest) (hop : isOpener c = true)
     (hy : StreamTo y ts' r) : StreamTo (tx ++ y) (⟨.text, tx, []⟩ :: ts') r := by
   subst hy0
   obtain ⟨xs', cE, hy, hts', hcut'⟩ := hy
@@ -872,7 +922,7 @@ theorem readByte_eof {t : Tokenizer} (h : t.buf.size ≤ t.rawE) : t.readByte = 
   simp [this]
 
 /-- the `'main` loop over bytes other than `<` up to the end of the buffer -/
-theorem mainLoop_eof : ∀ (tx : Bytes) (t : Tokenizer), (∀ b ∈ tx, b ≠ 60) →
+theorem mainLoop_eof : ∀ (tx : Bytes) (t : Tokenizer), textOKB tx = true →
     (∀ i, i < tx.length → t.buf[t.rawE + i]? = tx[i]?) → t.buf.size = t.rawE + tx.length → t.err = false →
     mainLoop t = finishText { t with rawE := t.rawE + tx.length, err := true }
   | [], t, _, _, hsz, herr => by
@@ -880,21 +930,20 @@ theorem mainLoop_eof : ∀ (tx : Bytes) (t : Tokenizer), (∀ b ∈ tx, b ≠ 60
     rw [mainLoop, readByte_eof (by omega)]
     simp
   | b :: tx, t, hne, hbuf, hsz, herr => by
-    have hb : t.buf[t.rawE]? = some b := by simpa using hbuf 0 (by simp)
-    rw [mainLoop_skip hb (hne b (by simp)) herr]
+    rw [mainLoop_text_step hne hbuf herr]
     have h1 : ∀ i, i < tx.length → t.buf[t.rawE + 1 + i]? = tx[i]? := by
       intro i hi
       have := hbuf (i + 1) (by simp; omega)
       simp only [List.getElem?_cons_succ] at this
       rw [← this]; congr 1; omega
-    have := mainLoop_eof tx { t with rawE := t.rawE + 1 } (fun x hx => hne x (List.mem_cons_of_mem _ hx)) h1
+    have := mainLoop_eof tx { t with rawE := t.rawE + 1 } (textOKB_tail hne) h1
       (by simp only [List.length_cons] at hsz; show t.buf.size = t.rawE + 1 + tx.length; omega) herr
     rw [this]
     congr 2
     simp only [List.length_cons]; omega
 
 /-- **a non-empty text free of `<` at the end of the input is one text token, nothing is left** -/
-theorem htmlTokenize?_text_eof {tx : Bytes} (hne : tx ≠ []) (h60 : ∀ b ∈ tx, b ≠ 60) :
+theorem htmlTokenize?_text_eof {tx : Bytes} (hne : tx ≠ []) (h60 : textOKB tx = true) :
     htmlTokenize? tx = some ([⟨.text, tx, []⟩], []) := by
   have hl : 0 < tx.length := List.length_pos_iff.mpr hne
   have hn : next (Tokenizer.new tx.toArray) =
@@ -944,7 +993,7 @@ theorem htmlTokenize?_text_eof {tx : Bytes} (hne : tx ≠ []) (h60 : ∀ b ∈ t
 
 /-- … and for the stream tokenizer: the text is ended by the end of the data (`cut`), but a plain text outside a
 raw-text context is not held back by `filter` (`isCut` is false) -/
-theorem streamTo_text_eof {tx : Bytes} (hne : tx ≠ []) (h60 : ∀ b ∈ tx, b ≠ 60) :
+theorem streamTo_text_eof {tx : Bytes} (hne : tx ≠ []) (h60 : textOKB tx = true) :
     StreamTo tx [⟨.text, tx, []⟩] [] := by
   have hp := htmlTokenize?_text_eof hne h60
   have he := tokenizeGoX_erase (tx.length + 2) (Tokenizer.new tx.toArray) []
@@ -1009,9 +1058,9 @@ structure TokLaws (P : Bytes → List Tok → Bytes → Prop) : Prop where
   nil : P [] [] []
   nil_inv : ∀ {ts : List Tok} {r : Bytes}, P [] ts r → ts = [] ∧ r = []
   append : ∀ {x y : Bytes} {ts ts' : List Tok} {r : Bytes}, Closed x ts → P y ts' r → P (x ++ y) (ts ++ ts') r
-  text : ∀ {tx y : Bytes} {c : Nat} {rest : Bytes} {ts' : List Tok} {r : Bytes}, tx ≠ [] → (∀ b ∈ tx, b ≠ 60) →
+  text : ∀ {tx y : Bytes} {c : Nat} {rest : Bytes} {ts' : List Tok} {r : Bytes}, tx ≠ [] → textOKB tx = true →
     y = 60 :: c :: rest → isOpener c = true → P y ts' r → P (tx ++ y) (⟨.text, tx, []⟩ :: ts') r
-  text_eof : ∀ {tx : Bytes}, tx ≠ [] → (∀ b ∈ tx, b ≠ 60) → P tx [⟨.text, tx, []⟩] []
+  text_eof : ∀ {tx : Bytes}, tx ≠ [] → textOKB tx = true → P tx [⟨.text, tx, []⟩] []
 
 theorem plainLaws : TokLaws PlainTo where
   nil := htmlTokenize?_nil
@@ -1147,7 +1196,7 @@ mutual
         simp only [List.contains_eq_mem, decide_eq_false_iff_not] at this
         exact this hb
       refine ⟨?_, fun hv => by simp [isVerb] at hv⟩
-      have := hP.text h.1 h60 hy0 hc hy
+      have := hP.text h.1 (textOKB_of_no60 raw h60) hy0 hc hy
       simp only [serialize, tokensOf, textToks]
       have hne : raw.isEmpty = false := by cases raw with
         | nil => exact absurd rfl h.1
